@@ -65,6 +65,12 @@ enum Observed {
 }
 
 thread_local! {
+    /// Set by the family `render-faults-at-end-of-file`: the snippet is the last thing in its file
+    /// (no text after it, no trailing newline).
+    static NO_TAIL: std::cell::Cell<bool> = const { std::cell::Cell::new(false) };
+}
+
+thread_local! {
     /// Set by the family `render-faults-after-refused-readd`.
     static AFTER_REFUSED_READD: std::cell::Cell<bool> = const { std::cell::Cell::new(false) };
 }
@@ -495,7 +501,7 @@ fn short(msg: &str) -> String {
 
 /// Runs one catalogue fault at one site with one padding.
 fn run_fault(f: &Fault, site: usize, pad: usize, ctx: &tera::Context, acc: &mut Acc) {
-    let planted = plant(site, PADS[pad].1, &f.text, !f.at_eof);
+    let planted = plant(site, PADS[pad].1, &f.text, !f.at_eof && !NO_TAIL.with(|c| c.get()));
     let snippet = planted.offset..planted.offset + f.text.len();
     let info = CaseInfo {
         id: &f.id,
@@ -885,6 +891,39 @@ fn main() {
                 for pad in 0..PADS.len() {
                     run_fault(&faults[fi], site, pad, &ctx, acc);
                 }
+            },
+        );
+    }
+
+    // ------------------------------------------------ rendering faults on the last line of a file
+    {
+        let items: Vec<(usize, usize)> = faults
+            .iter()
+            .enumerate()
+            .filter(|(_, f)| f.class == Class::Render)
+            .flat_map(|(i, f)| (0..SITES.len()).filter(move |s| f.sites & sites::FILE_END & (1 << s) != 0).map(move |s| (i, s)))
+            .collect();
+        run.family(
+            Family::new(
+                "render-faults-at-end-of-file",
+                items.len() as u64,
+                &format!(
+                    "{} rendering faults x every site where the snippet can end its file x {} paddings, with NOTHING after the snippet (the fault sits on the last line, which has no trailing newline, and its span ends where the source ends)",
+                    n_of(Class::Render),
+                    PADS.len()
+                ),
+            )
+            .describe(|i| {
+                let (fi, s) = items[i as usize];
+                json!({"fault": faults[fi].id, "site": SITES[s], "snippet": faults[fi].text, "tail": "none: the snippet ends the file"})
+            }),
+            |item, acc: &mut Acc| {
+                let (fi, site) = items[item as usize];
+                NO_TAIL.with(|c| c.set(true));
+                for pad in 0..PADS.len() {
+                    run_fault(&faults[fi], site, pad, &ctx, acc);
+                }
+                NO_TAIL.with(|c| c.set(false));
             },
         );
     }
